@@ -26,8 +26,9 @@ def ids(cards):
 class Policy(BiddingSystem, PlayingSystem):
     """Deterministic per-seat policies: decisions depend only on the seat's own replica and its own PRNG."""
 
-    def __init__(self, seed, style, fault=None, passout_boards=()):
+    def __init__(self, seed, style, fault=None, passout_boards=(), forced=None):
         self.passout_boards = set(passout_boards)
+        self.forced = {int(k): v for k, v in (forced or {}).items()}     # board -> 'nt' | 'trump': the dealer opens, everybody else passes
         self.r = random.Random(seed)
         self.style = style
         self.fault = fault or {}
@@ -52,6 +53,10 @@ class Policy(BiddingSystem, PlayingSystem):
         if self.board in self.passout_boards:      # the whole table passes this board out (same list for the four seats)
             return Bid.Pass
         nb = len(env.bid_history)
+        if self.board in self.forced:              # one-suit deals: 1NT goes down thirteen, seven of the dealer's own suit makes all the tricks
+            if nb > 0:
+                return Bid.Pass
+            return Bid.int_to_bid(4 if self.forced[self.board] == 'nt' else 30 + [i for i in range(52) if hand[i] == 1][0] // 13)
         if self.style == 'pass':
             return Bid.Pass
         if self.style == 'short':
@@ -265,7 +270,7 @@ def run_session(k):
         name = f'cli{i}'
         S.bind(name)
         try:
-            pol = Policy(a.get('policy_seed', 0), a.get('style', 'competitive'), a.get('fault'), a.get('passout_boards', ()))
+            pol = Policy(a.get('policy_seed', 0), a.get('style', 'competitive'), a.get('fault'), a.get('passout_boards', ()), a.get('forced'))
             c = VClient(SEATS[a['seat']], a['team'], pol, pol, 'x', 0, variant=a.get('variant'), vseed=a.get('policy_seed', 0) + 7, fault=a.get('fault'))
             c.PROTOCOL_VERSION = a.get('version', 18)
             c._socket = VSock(c, name=name)
